@@ -30,8 +30,16 @@ const prop = "C15"
 
 type engine struct{}
 
+//go:norace
 func (engine) Name() string { return "lifecycle" }
 
+// RaceProps: a quarter of the workers run the race-detector build of this engine (DESIGN.md §2.11); a data
+// race between two accesses of the code under test is reported under these properties.
+//
+//go:norace
+func (engine) RaceProps() []string { return []string{"C15"} }
+
+//go:norace
 func TestWorker(t *testing.T) { simdrv.Worker(t, engine{}) }
 
 // stampedWriter records when something was really written by a stock stdout exporter.
@@ -45,6 +53,7 @@ type wr struct {
 	task string
 }
 
+//go:norace
 func (s *stampedWriter) Write(p []byte) (int, error) {
 	s.writes = append(s.writes, wr{s.w.sim.Stamp(), s.w.sim.CurrentTask()})
 	return len(p), nil
@@ -60,6 +69,8 @@ type telOp struct {
 
 // lateWrites returns the writes made after stamp ret that cannot be attributed to a telemetry call
 // that was already in progress when ret was taken.
+//
+//go:norace
 func (w *world) lateWrites(out *stampedWriter, ret uint64) []wr {
 	var late []wr
 	for _, x := range out.writes {
@@ -97,12 +108,17 @@ type procWrap struct {
 	shutdowns []*call
 }
 
+//go:norace
 func (p *procWrap) OnStart(ctx context.Context, s sdktrace.ReadWriteSpan) { p.inner.OnStart(ctx, s) }
+
+//go:norace
 func (p *procWrap) OnEnd(s sdktrace.ReadOnlySpan) {
 	p.onEnd[s.Name()] = p.w.sim.Stamp()
 	p.w.r.Log("%d onend proc=%d span=%s", p.onEnd[s.Name()], p.id, s.Name())
 	p.inner.OnEnd(s)
 }
+
+//go:norace
 func (p *procWrap) Shutdown(ctx context.Context) error {
 	c := &call{inv: p.w.sim.Stamp(), task: p.w.sim.CurrentTask()}
 	p.shutdowns = append(p.shutdowns, c)
@@ -112,6 +128,8 @@ func (p *procWrap) Shutdown(ctx context.Context) error {
 	p.w.r.Log("%d proc-shutdown-end proc=%d err=%v", c.ret, p.id, c.err)
 	return c.err
 }
+
+//go:norace
 func (p *procWrap) ForceFlush(ctx context.Context) error { return p.inner.ForceFlush(ctx) }
 
 type expWrap struct {
@@ -124,10 +142,13 @@ type expWrap struct {
 	shutdowns []*call
 }
 
+//go:norace
 func (e *expWrap) ExportSpans(ctx context.Context, s []sdktrace.ReadOnlySpan) error {
 	e.exports = append(e.exports, e.w.sim.Stamp())
 	return e.inner.ExportSpans(ctx, s)
 }
+
+//go:norace
 func (e *expWrap) Shutdown(ctx context.Context) error {
 	c := &call{inv: e.w.sim.Stamp(), task: e.w.sim.CurrentTask()}
 	e.shutdowns = append(e.shutdowns, c)
@@ -167,6 +188,7 @@ type planOp struct {
 	sleep time.Duration
 }
 
+//go:norace
 func (engine) Body(r *simdrv.Run) {
 	w := &world{r: r}
 	scenario := []string{"trace", "trace", "metric", "log"}[r.Cfg(4)]
@@ -205,6 +227,7 @@ func (engine) Body(r *simdrv.Run) {
 	}
 }
 
+//go:norace
 func (w *world) anyShutdownInvoked() bool {
 	for _, o := range w.ops {
 		if o.Kind == "shutdown" {
@@ -216,6 +239,8 @@ func (w *world) anyShutdownInvoked() bool {
 
 // finish runs the simulation and deals with the outcomes common to all scenarios. It returns false
 // if the history must not be evaluated further.
+//
+//go:norace
 func (w *world) finish(pendingDesc func() []string) bool {
 	r := w.r
 	out := w.sim.Run()
@@ -254,6 +279,7 @@ func (w *world) finish(pendingDesc func() []string) bool {
 	return true
 }
 
+//go:norace
 func uniq(xs []string) []string {
 	var out []string
 	for i, x := range xs {
@@ -265,6 +291,8 @@ func uniq(xs []string) []string {
 }
 
 // panicSite extracts a stable location of the first panic for the signature.
+//
+//go:norace
 func (w *world) panicSite() string {
 	if len(w.sim.Panics) == 0 {
 		return "?"
@@ -283,6 +311,7 @@ func (w *world) panicSite() string {
 
 // ================= trace =================
 
+//go:norace
 func (w *world) traceScenario(plans [][]planOp) {
 	r, sim := w.r, w.sim
 	// four candidate processors over the stock processors and exporters (one around a nil exporter)
@@ -604,6 +633,21 @@ func (w *world) traceScenario(plans [][]planOp) {
 					r.Violate(prop, "export-after-shutdown", "export-after-shutdown/trace/"+oc, "the stdout exporter of processor %d wrote at %d (task %s), after provider Shutdown (invoked %d) returned nil at %d", p.id, x.at, x.task, o.Inv, o.Ret)
 				}
 			}
+			// ... and what the processor asked of its exporter: once the exporter's own Shutdown has returned
+			// and the provider's Shutdown has returned nil, no ExportSpans call begins any more, whichever End
+			// it stems from (the stock processors hold a lock across the export or have joined their worker
+			// by then; after seeded change C15-i, which lets an End that read the exporter before Shutdown
+			// export after it)
+			for _, sd := range p.exp.shutdowns {
+				if sd.ret == 0 {
+					continue
+				}
+				for _, at := range p.exp.exports {
+					if at > sd.ret && at > o.Ret {
+						r.Violate(prop, "export-after-shutdown", "export-after-exporter-shutdown/"+p.kind+"/"+oc, "ExportSpans was called at %d on the exporter of processor %d (%s), after the exporter's Shutdown had returned at %d and provider Shutdown (invoked %d) had returned nil at %d", at, p.id, p.kind, sd.ret, o.Inv, o.Ret)
+					}
+				}
+			}
 		}
 	}
 	// after Shutdown returned: no-op tracers, harmless calls
@@ -634,17 +678,26 @@ type mexp struct {
 	exports   []uint64
 }
 
+//go:norace
 func (e *mexp) Temporality(k sdkmetric.InstrumentKind) metricdata.Temporality {
 	return e.inner.Temporality(k)
 }
+
+//go:norace
 func (e *mexp) Aggregation(k sdkmetric.InstrumentKind) sdkmetric.Aggregation {
 	return e.inner.Aggregation(k)
 }
+
+//go:norace
 func (e *mexp) Export(ctx context.Context, rm *metricdata.ResourceMetrics) error {
 	e.exports = append(e.exports, e.w.sim.Stamp())
 	return e.inner.Export(ctx, rm)
 }
+
+//go:norace
 func (e *mexp) ForceFlush(ctx context.Context) error { return e.inner.ForceFlush(ctx) }
+
+//go:norace
 func (e *mexp) Shutdown(ctx context.Context) error {
 	c := &call{inv: e.w.sim.Stamp(), task: e.w.sim.CurrentTask()}
 	e.shutdowns = append(e.shutdowns, c)
@@ -653,6 +706,7 @@ func (e *mexp) Shutdown(ctx context.Context) error {
 	return c.err
 }
 
+//go:norace
 func (w *world) metricScenario(plans [][]planOp) {
 	r, sim := w.r, w.sim
 	out := &stampedWriter{w: w}
@@ -804,8 +858,13 @@ type lexp struct {
 	shutdowns []*call
 }
 
+//go:norace
 func (e *lexp) Export(ctx context.Context, rs []sdklog.Record) error { return e.inner.Export(ctx, rs) }
-func (e *lexp) ForceFlush(ctx context.Context) error                 { return e.inner.ForceFlush(ctx) }
+
+//go:norace
+func (e *lexp) ForceFlush(ctx context.Context) error { return e.inner.ForceFlush(ctx) }
+
+//go:norace
 func (e *lexp) Shutdown(ctx context.Context) error {
 	c := &call{inv: e.w.sim.Stamp(), task: e.w.sim.CurrentTask()}
 	e.shutdowns = append(e.shutdowns, c)
@@ -814,6 +873,7 @@ func (e *lexp) Shutdown(ctx context.Context) error {
 	return c.err
 }
 
+//go:norace
 func (w *world) logScenario(plans [][]planOp) {
 	r, sim := w.r, w.sim
 	var exps []*lexp
